@@ -68,14 +68,71 @@ Ltac split_h h h0 :=
   let E := fresh "Eh" in
   destruct (Nat.eqb h h0) eqn:E; [apply Nat.eqb_eq in E; subst h|]; cbn [andb].
 
-Lemma on_settings_flags s cmd id status : blocks_valid s ->
-  forall h, flags (get (fst (fst (on_settings s cmd id status))) h) =
+(* on_settings without the effect of an acknowledged reset (handled separately below) *)
+Definition on_settings_old (s : st) (cmd id status : Z) : step_result :=
+  let ob := find_block s id in
+  if (cmd =? g_cmd_create) || (cmd =? g_cmd_create_v2) then
+    match ob with
+    | None => (s, [], None)
+    | Some h =>
+        let c := get s h in
+        if (status =? 0) || (status =? g_eexist) then
+          if negb (c_added c) then
+            let w := OWire 5 g_chan_settings [g_cmd_start; id; c_period c] [g_cmd_start; id] in
+            let '(s1, o1) := assign_added s h true in
+            (put s1 h (set_pending (get s1 h) 0), w :: o1, None)
+          else (s, [], None)
+        else if err_known status then
+          (put s h (set_errno c status), [OCb cb_added_err h [0]; OCb cb_error h [status]], None)
+        else (s, [], Some KeyError)
+    end
+  else if cmd =? g_cmd_start then
+    if status =? 0 then
+      match ob with
+      | Some h => let '(s1, o1) := assign_started s h true in (s1, o1, None)
+      | None => (s, [], None)
+      end
+    else if err_known status then
+      match ob with
+      | Some h => (put s h (set_errno (get s h) status), [OCb cb_started_err h [0]], None)
+      | None => (s, [], None)
+      end
+    else (s, [], Some KeyError)
+  else if cmd =? g_cmd_stop then
+    if status =? 0 then
+      match ob with
+      | Some h => let '(s1, o1) := assign_started s h false in (s1, o1, None)
+      | None => (s, [], None)
+      end
+    else (s, [], None)
+  else if cmd =? g_cmd_delete then
+    if (status =? 0) || (status =? g_enoent) then
+      match ob with
+      | Some h =>
+          let '(s1, o1) := assign_started s h false in
+          let '(s2, o2) := assign_added s1 h false in
+          (s2, o1 ++ o2, None)
+      | None => (s, [], None)
+      end
+    else (s, [], None)
+  else if cmd =? g_cmd_reset then (s, [], None)
+  else (s, [], None).
+
+
+Definition reset_applies (s : st) (cmd : Z) : bool :=
+  (cmd =? g_cmd_reset) && match s_toc s with None => true | Some _ => false end.
+
+Definition toc_info_wire (s : st) : obs :=
+  OWire 5 g_chan_toc [if s_v2 s then g_toc_info_v2 else g_toc_info] [if s_v2 s then g_toc_info_v2 else g_toc_info].
+
+Lemma on_settings_old_flags s cmd id status : blocks_valid s ->
+  forall h, flags (get (fst (fst (on_settings_old s cmd id status))) h) =
             if addressed s id h then ack_effect cmd status (flags (get s h)) else flags (get s h).
 Proof.
   intros Hv h. unfold addressed, ack_effect.
   destruct (find_block s id) as [h0|] eqn:Ef.
   - pose proof (find_block_valid _ _ _ Hv Ef) as Hv0.
-    unfold on_settings, assign_added, assign_started. rewrite Ef.
+    unfold on_settings_old, assign_added, assign_started. rewrite Ef.
     destruct ((cmd =? g_cmd_create) || (cmd =? g_cmd_create_v2)) eqn:C1.
     { destruct ((status =? 0) || (status =? g_eexist)).
       - destruct (negb (c_added (get s h0))) eqn:Ea; simp_heap Hv0; split_h h h0; simp_heap Hv0; try reflexivity.
@@ -92,9 +149,9 @@ Proof.
     destruct (cmd =? g_cmd_delete) eqn:C4.
     { destruct ((status =? 0) || (status =? g_enoent)); simp_heap Hv0; split_h h h0; simp_heap Hv0; reflexivity. }
     destruct (cmd =? g_cmd_reset) eqn:C5.
-    { destruct (s_toc s); simp_heap Hv0; split_h h h0; reflexivity. }
+    { simp_heap Hv0; split_h h h0; reflexivity. }
     simp_heap Hv0. split_h h h0; reflexivity.
-  - unfold on_settings. rewrite Ef.
+  - unfold on_settings_old. rewrite Ef.
     repeat case_if; cbn [fst snd]; gp; reflexivity.
 Qed.
 
@@ -123,8 +180,8 @@ Ltac walk_eq :=
 Lemma added_after_started s h b : c_added (get (put s h (set_started (get s h) b)) h) = c_added (get s h).
 Proof. rewrite get_put. destruct (Nat.eqb h h && valid_h s h)%bool; reflexivity. Qed.
 
-Lemma on_settings_obs s cmd id status :
-  let o := snd (fst (on_settings s cmd id status)) in
+Lemma on_settings_old_obs s cmd id status :
+  let o := snd (fst (on_settings_old s cmd id status)) in
   filter is_flag_cb o =
     match find_block s id with
     | Some h => expected_cbs h (flags (get s h)) (ack_effect cmd status (flags (get s h)))
@@ -134,15 +191,11 @@ Lemma on_settings_obs s cmd id status :
     match find_block s id with
     | Some h => if create_ack_ok cmd status && negb (c_added (get s h))
                 then [OWire 5 g_chan_settings [g_cmd_start; id; c_period (get s h)] [g_cmd_start; id]]
-                else if (cmd =? g_cmd_reset) && match s_toc s with None => true | Some _ => false end
-                then [OWire 5 g_chan_toc [if s_v2 s then g_toc_info_v2 else g_toc_info] [if s_v2 s then g_toc_info_v2 else g_toc_info]]
                 else []
-    | None => if (cmd =? g_cmd_reset) && match s_toc s with None => true | Some _ => false end
-              then [OWire 5 g_chan_toc [if s_v2 s then g_toc_info_v2 else g_toc_info] [if s_v2 s then g_toc_info_v2 else g_toc_info]]
-              else []
+    | None => []
     end.
 Proof.
-  cbn zeta. unfold on_settings, ack_effect, create_ack_ok, expected_cbs, assign_added, assign_started, flags.
+  cbn zeta. unfold on_settings_old, ack_effect, create_ack_ok, expected_cbs, assign_added, assign_started, flags.
   destruct (find_block s id) as [h0|] eqn:Ef.
   - destruct (c_added (get s h0)) eqn:Ea, (c_started (get s h0)) eqn:Es;
     cbv beta iota zeta; rewrite ?added_after_started, ?Ea, ?Es;
@@ -151,6 +204,147 @@ Proof.
     exfalso; unfold g_cmd_create, g_cmd_create_v2, g_cmd_start, g_cmd_stop, g_cmd_delete, g_cmd_reset in *; lia.
   - walk_eq; cbn; try (split; reflexivity);
     exfalso; unfold g_cmd_create, g_cmd_create_v2, g_cmd_start, g_cmd_stop, g_cmd_delete, g_cmd_reset in *; lia.
+Qed.
+
+(* ------------------------------------------------------------------ the acknowledged reset (fixes/F05c.patch) *)
+Lemma on_settings_split s cmd id status :
+  on_settings s cmd id status =
+    if reset_applies s cmd then
+      let '(s1, o1) := forget_blocks s (s_blocks s) in
+      (set_toc (set_blocks s1 []) (Some []), o1 ++ [toc_info_wire s], None)
+    else on_settings_old s cmd id status.
+Proof.
+  unfold reset_applies, on_settings, on_settings_old, toc_info_wire.
+  destruct (cmd =? g_cmd_reset) eqn:C5.
+  - assert (cmd = 5) by (unfold g_cmd_reset in C5; lia). subst cmd.
+    change (5 =? g_cmd_create) with false. change (5 =? g_cmd_create_v2) with false.
+    change (5 =? g_cmd_start) with false. change (5 =? g_cmd_stop) with false.
+    change (5 =? g_cmd_delete) with false. change (5 =? g_cmd_reset) with true. cbn [orb andb].
+    destruct (s_toc s); reflexivity.
+  - cbn [andb]. reflexivity.
+Qed.
+
+Definition memb (h : nat) (l : list nat) : bool := existsb (Nat.eqb h) l.
+
+Lemma forget_blocks_shape bl : forall s,
+  let s1 := fst (forget_blocks s bl) in
+  length (s_cfgs s1) = length (s_cfgs s) /\ s_blocks s1 = s_blocks s /\ s_toc s1 = s_toc s /\
+  s_counter s1 = s_counter s /\ s_v2 s1 = s_v2 s /\ s_link s1 = s_link s.
+Proof.
+  induction bl as [|h r IH]; intros s; cbn zeta; [cbn; auto 10|].
+  cbn [forget_blocks]. unfold assign_started, assign_added.
+  match goal with |- context [forget_blocks ?s3 r] => specialize (IH s3); destruct (forget_blocks s3 r) as [s4 o4] end.
+  cbn [fst snd] in *. cbn zeta in IH. destruct IH as (A & B & C & D & E & F).
+  unfold put in *. cbn [s_cfgs s_blocks s_toc s_counter s_v2 s_link] in *.
+  rewrite !upd_nth_length in A. auto 10.
+Qed.
+
+(* every field but added / started / pending is left alone *)
+Lemma forget_blocks_static bl : forall s h,
+  let c1 := get (fst (forget_blocks s bl)) h in
+  c_vars c1 = c_vars (get s h) /\ c_dfa c1 = c_dfa (get s h) /\ c_cf c1 = c_cf (get s h) /\
+  c_id c1 = c_id (get s h) /\ c_period c1 = c_period (get s h) /\ c_valid c1 = c_valid (get s h).
+Proof.
+  induction bl as [|h0 r IH]; intros s h; cbn zeta; [cbn; auto 10|].
+  cbn [forget_blocks]. unfold assign_started, assign_added.
+  match goal with |- context [forget_blocks ?s3 r] => specialize (IH s3 h); destruct (forget_blocks s3 r) as [s4 o4] end.
+  cbn [fst snd] in *. cbn zeta in IH. destruct IH as (A & B & C & D & E & F).
+  rewrite A, B, C, D, E, F. clear.
+  repeat (rewrite get_put;
+          match goal with
+          | |- context [if (Nat.eqb ?a ?b && ?v)%bool then _ else _] =>
+              let E := fresh "E" in
+              destruct (Nat.eqb a b) eqn:E; [apply Nat.eqb_eq in E; subst|]; cbn [andb]; try destruct v
+          end); cbn; auto 10.
+Qed.
+
+Lemma forget_blocks_flags bl : forall s h, Forall (fun h => valid_h s h = true) bl ->
+  flags (get (fst (forget_blocks s bl)) h) = if memb h bl then (false, false) else flags (get s h).
+Proof.
+  induction bl as [|h0 r IH]; intros s h Hv; [reflexivity|].
+  inversion Hv as [|x y Hv0 Hvr]; subst.
+  cbn [forget_blocks]. unfold assign_started, assign_added.
+  match goal with |- context [forget_blocks ?s3 r] =>
+    specialize (IH s3 h); destruct (forget_blocks s3 r) as [s4 o4] eqn:Ef end.
+  cbn [fst snd] in *. rewrite IH.
+  - unfold memb. cbn [existsb]. fold (memb h r). destruct (memb h r); [now rewrite orb_true_r|].
+    rewrite orb_false_r. rewrite !get_put, !valid_h_put, Hv0, !Nat.eqb_refl. cbn [andb].
+    destruct (Nat.eqb h h0) eqn:E; cbn [andb]; reflexivity.
+  - eapply Forall_impl; [|exact Hvr]. intros a Ha. now rewrite !valid_h_put.
+Qed.
+
+Lemma forget_blocks_obs bl : forall s,
+  filter is_wire (snd (forget_blocks s bl)) = [] /\
+  filter is_flag_cb (snd (forget_blocks s bl)) = snd (forget_blocks s bl).
+Proof.
+  induction bl as [|h0 r IH]; intros s; [split; reflexivity|].
+  cbn [forget_blocks]. unfold assign_started, assign_added.
+  match goal with |- context [forget_blocks ?s3 r] => specialize (IH s3); destruct (forget_blocks s3 r) as [s4 o4] end.
+  cbn [fst snd] in *. destruct IH as [A B]. rewrite !filter_app, A, B.
+  split; repeat match goal with |- context [if ?b then _ else _] => destruct b end; reflexivity.
+Qed.
+
+Lemma flat_map_ext_in' {A B} (f g : A -> list B) l : (forall a, In a l -> f a = g a) -> flat_map f l = flat_map g l.
+Proof. induction l as [|x l IH]; intros H; cbn; [reflexivity|]. rewrite H by now left. rewrite IH; [reflexivity|]. intros; apply H; now right. Qed.
+
+(* with pairwise different blocks: one started_cb(False) / added_cb(False) per flag that was set *)
+Lemma forget_blocks_cbs bl : forall s, Forall (fun h => valid_h s h = true) bl -> NoDup bl ->
+  snd (forget_blocks s bl) = flat_map (fun h => expected_cbs h (flags (get s h)) (false, false)) bl.
+Proof.
+  induction bl as [|h0 r IH]; intros s Hv Hn; [reflexivity|].
+  inversion Hv as [|x y Hv0 Hvr]; subst. inversion Hn as [|x y Hni Hnr]; subst.
+  cbn [forget_blocks flat_map]. unfold assign_started, assign_added.
+  match goal with |- context [forget_blocks ?s3 r] =>
+    specialize (IH s3); destruct (forget_blocks s3 r) as [s4 o4] eqn:Ef end.
+  cbn [fst snd] in *. rewrite IH; [| |exact Hnr].
+  - rewrite app_assoc. f_equal.
+    + unfold expected_cbs, flags. cbn [fst snd]. rewrite added_after_started.
+      destruct (c_started (get s h0)), (c_added (get s h0)); reflexivity.
+    + apply flat_map_ext_in'. intros a Ha. rewrite !get_put.
+      destruct (Nat.eqb a h0) eqn:E; [apply Nat.eqb_eq in E; subst; contradiction|]. reflexivity.
+  - eapply Forall_impl; [|exact Hvr]. intros a Ha. now rewrite !valid_h_put.
+Qed.
+
+Lemma on_settings_flags s cmd id status : blocks_valid s ->
+  forall h, flags (get (fst (fst (on_settings s cmd id status))) h) =
+            if reset_applies s cmd && memb h (s_blocks s) then (false, false)
+            else if addressed s id h then ack_effect cmd status (flags (get s h)) else flags (get s h).
+Proof.
+  intros Hv h. rewrite on_settings_split. destruct (reset_applies s cmd) eqn:R; cbn [andb].
+  - pose proof (forget_blocks_flags (s_blocks s) s h Hv) as F.
+    destruct (forget_blocks s (s_blocks s)) as [s1 o1]. cbn [fst snd] in *.
+    rewrite get_set_toc, get_set_blocks, F. destruct (memb h (s_blocks s)); [reflexivity|].
+    (* cmd = reset: the acknowledgement table leaves the flags alone *)
+    unfold reset_applies in R. apply andb_true_iff in R as [R _].
+    assert (cmd = 5) by (unfold g_cmd_reset in R; lia). subst cmd.
+    unfold ack_effect. change (5 =? g_cmd_create) with false. change (5 =? g_cmd_create_v2) with false.
+    change (5 =? g_cmd_start) with false. change (5 =? g_cmd_stop) with false.
+    change (5 =? g_cmd_delete) with false. cbn [orb]. destruct (addressed s id h); reflexivity.
+  - now apply on_settings_old_flags.
+Qed.
+
+Lemma on_settings_obs s cmd id status :
+  let o := snd (fst (on_settings s cmd id status)) in
+  filter is_flag_cb o =
+    (if reset_applies s cmd then snd (forget_blocks s (s_blocks s))
+     else match find_block s id with
+          | Some h => expected_cbs h (flags (get s h)) (ack_effect cmd status (flags (get s h)))
+          | None => []
+          end) /\
+  filter is_wire o =
+    (if reset_applies s cmd then [toc_info_wire s]
+     else match find_block s id with
+          | Some h => if create_ack_ok cmd status && negb (c_added (get s h))
+                      then [OWire 5 g_chan_settings [g_cmd_start; id; c_period (get s h)] [g_cmd_start; id]]
+                      else []
+          | None => []
+          end).
+Proof.
+  cbn zeta. rewrite on_settings_split. destruct (reset_applies s cmd) eqn:R.
+  - destruct (forget_blocks_obs (s_blocks s) s) as [A B].
+    destruct (forget_blocks s (s_blocks s)) as [s1 o1]. cbn [fst snd] in *.
+    rewrite !filter_app, A, B. cbn. rewrite app_nil_r. split; reflexivity.
+  - apply on_settings_old_obs.
 Qed.
 
 (* ------------------------------------------------------------------ packets: the flags follow the acknowledgement *)
@@ -176,7 +370,8 @@ Lemma packet_flags s chan data : blocks_valid s -> forall h,
   flags (get (fst (fst (on_packet s chan data))) h) =
     match ack_of chan data with
     | Some (cmd, id, status) =>
-        if addressed s id h then ack_effect cmd status (flags (get s h)) else flags (get s h)
+        if reset_applies s cmd && memb h (s_blocks s) then (false, false)
+        else if addressed s id h then ack_effect cmd status (flags (get s h)) else flags (get s h)
     | None => flags (get s h)
     end.
 Proof.
@@ -191,10 +386,11 @@ Lemma packet_obs s chan data :
   filter is_flag_cb o =
     match ack_of chan data with
     | Some (cmd, id, status) =>
-        match find_block s id with
-        | Some h => expected_cbs h (flags (get s h)) (ack_effect cmd status (flags (get s h)))
-        | None => []
-        end
+        if reset_applies s cmd then snd (forget_blocks s (s_blocks s))
+        else match find_block s id with
+             | Some h => expected_cbs h (flags (get s h)) (ack_effect cmd status (flags (get s h)))
+             | None => []
+             end
     | None => []
     end.
 Proof.
@@ -220,13 +416,23 @@ Proof.
   assert (Hin : In w o <-> In w (filter is_wire o)).
   { rewrite filter_In. cbn. tauto. }
   rewrite Hin, W. clear Hin W.
-  destruct (create_ack_ok cmd status && negb (c_added (get s h))) eqn:E.
-  - apply andb_true_iff in E as [E1 E2]. split; [intros _; split; [exact E1|destruct (c_added (get s h)); [discriminate|reflexivity]]|intros _; left; reflexivity].
-  - split.
-    + intros Hw. exfalso.
-      destruct ((cmd =? g_cmd_reset) && match s_toc s with None => true | Some _ => false end); cbn in Hw; [|tauto].
-      destruct Hw as [Hw|[]]. unfold w in Hw. inversion Hw.
-    + intros [E1 E2]. rewrite E1, E2 in E. discriminate.
+  destruct (reset_applies s cmd) eqn:R.
+  - unfold reset_applies in R. apply andb_true_iff in R as [R _].
+    assert (cmd = 5) by (unfold g_cmd_reset in R; lia). subst cmd.
+    unfold create_ack_ok. change (5 =? g_cmd_create) with false. change (5 =? g_cmd_create_v2) with false. cbn [orb andb].
+    split; [|intros [X _]; discriminate].
+    intros [Hw|[]]. unfold w, toc_info_wire in Hw. inversion Hw.
+  - destruct (create_ack_ok cmd status && negb (c_added (get s h))) eqn:E.
+    + apply andb_true_iff in E as [E1 E2]. split; [intros _; split; [exact E1|destruct (c_added (get s h)); [discriminate|reflexivity]]|intros _; left; reflexivity].
+    + split; [intros []|]. intros [E1 E2]. rewrite E1, E2 in E. discriminate.
+Qed.
+
+(* the acknowledged reset empties log_blocks *)
+Lemma reset_ack_blocks s cmd id status : reset_applies s cmd = true ->
+  s_blocks (fst (fst (on_settings s cmd id status))) = [] /\
+  s_toc (fst (fst (on_settings s cmd id status))) = Some [].
+Proof.
+  intros R. rewrite on_settings_split, R. destruct (forget_blocks s (s_blocks s)). split; reflexivity.
 Qed.
 
 (* ------------------------------------------------------------------ everything else leaves the flags alone *)
